@@ -1234,6 +1234,48 @@ struct ReceiptCorrelationCommitContext {
     commit_hash: Hash,
 }
 
+/// Verification-only seams (compiled only with `--cfg echo_verif`).
+#[cfg(echo_verif)]
+impl WorldlineRuntime {
+    /// Verification seam: overwrites the global tick (the `GlobalTickOverflow`
+    /// pre-flight is unreachable otherwise).
+    pub fn verif_set_global_tick(&mut self, tick: GlobalTick) {
+        self.global_tick = tick;
+    }
+
+    /// Verification seam: overwrites one worldline's frontier tick; `false` if
+    /// the worldline is unknown.
+    pub fn verif_set_frontier_tick(
+        &mut self,
+        worldline_id: &WorldlineId,
+        tick: WorldlineTick,
+    ) -> bool {
+        match self.worldlines.frontier_mut(worldline_id) {
+            Some(frontier) => {
+                frontier.frontier_tick = tick;
+                true
+            }
+            None => false,
+        }
+    }
+
+    /// Verification seam: `HeadInbox::set_policy` on a registered head (evicts
+    /// exactly as the real call does); `false` if the head is unknown.
+    pub fn verif_set_inbox_policy(
+        &mut self,
+        key: &WriterHeadKey,
+        policy: crate::head_inbox::InboxPolicy,
+    ) -> bool {
+        match self.heads.inbox_mut(key) {
+            Some(inbox) => {
+                inbox.set_policy(policy);
+                true
+            }
+            None => false,
+        }
+    }
+}
+
 impl WorldlineRuntime {
     /// Creates an empty runtime.
     #[must_use]
